@@ -93,12 +93,12 @@ impl Harness for Enc {
         explore(
             cfg,
             || {
-                let g = SymGraph::<(), Undirected>::new("a", n, false);
+                let g = SymGraph::<(), Undirected>::sparse("a", n, &free);
                 let mut k = 0;
                 for j in 1..n {
                     for i in 0..j {
                         if !free.contains(&(i, j)) {
-                            assume(&not(&g.var(i, j)));
+                            // absent by construction (sparse double): not even declared
                         } else if k < self.split_bits {
                             let v = g.var(i, j);
                             assume(&if self.split_val >> k & 1 == 1 { v } else { not(&v) });
@@ -609,11 +609,15 @@ fn make(tier: &str, seed: u64) -> Vec<Box<dyn Harness>> {
             v.push(Box::new(Enc { n, free: if thorough { 10 } else { 8 }, seed, split_bits: 2, split_val: val }));
         }
     }
+    // larger orders (the long header holds 18 bits): sparse, 6 free bits
+    for &n in &[100usize, 255, 256, 300] {
+        v.push(Box::new(Enc { n, free: 6, seed, split_bits: 0, split_val: 0 }));
+    }
     if thorough {
         for val in 0..64 {
             v.push(Box::new(Enc { n: 7, free: usize::MAX, seed, split_bits: 6, split_val: val }));
         }
-        for &n in &[100usize, 258] {
+        for &n in &[1000usize, 4096] {
             v.push(Box::new(Enc { n, free: 6, seed, split_bits: 0, split_val: 0 }));
         }
     }
